@@ -179,10 +179,21 @@ def run_case(ctx, case, d):
             for rec, a in zip(trecs, srt):
                 if rec["chrom"] != c or rec["rg"] not in rg_of[s] or not usable17(rec):
                     continue
-                t = templ.setdefault(rec["name"], {"cov": set(), "hp": rec["hp"], "ps": rec["ps"]})
+                t = templ.setdefault(rec["name"], {"cov": set(), "hp": rec["hp"], "ps": rec["ps"], "start": rec["start"],
+                                                   "bx": next((val for tg, val in a.get("tags", []) if tg == "BX"), None)})
                 t["cov"].update(i for i, _ in a["truth"])
+                t["start"] = min(t["start"], rec["start"])
             for t in templ.values():
-                sets = {V[(s, c, pos_of[i])][2] for i in t["cov"] if V[(s, c, pos_of[i])][0]}
+                t["sets"] = {V[(s, c, pos_of[i])][2] for i in t["cov"] if V[(s, c, pos_of[i])][0]}
+            for t in templ.values():
+                sets = set(t["sets"])
+                if case.get("bx_cutoff") and t["bx"] is not None:
+                    # linked reads: haplotag tags a whole read cloud (same BX, starts within the cutoff of the cloud's
+                    # first read) with ONE haplotype and phase set; for the proviso "no read overlaps two different
+                    # phase sets" the cloud is the read.  Two members are at most 2 * cutoff apart.
+                    for t2 in templ.values():
+                        if t2["bx"] == t["bx"] and abs(t2["start"] - t["start"]) <= 2 * case["bx_cutoff"]:
+                            sets |= t2["sets"]
                 t["two_sets"] = len(sets) > 1
             for i, v in enumerate(vs):
                 key = (s, c, v["pos"])
